@@ -1,16 +1,17 @@
 import RegexVerif.Sexp
-import RegexVerif.Model.Spec
+import RegexVerif.Model.Backtrack
 import RegexVerif.Driver.SpecIO
 
 namespace RegexVerif.Driver
 open RegexVerif Sexp Spec
 
-/-- `(c01 find rtl start ngroups <pat> <env>)` → the specification's find result -/
+/-- `(c01 find rtl start ngroups <pat> <env>)` → the specification's find result, computed by the
+    executable matcher (`findRun = find`: Props.C01.findRun_eq_find) -/
 def handleC01 (args : List Sexp) : String :=
   match args with
   | [.atom "find", rtl, start, ng, p, e] =>
     match rtl.bool?, start.nat?, ng.nat?, pat? p, env? e with
-    | some rtl, some start, some ng, some p, some e => renderResult ng (Spec.find e p rtl start)
+    | some rtl, some start, some ng, some p, some e => renderResult ng (Spec.findRun e p rtl start)
     | _, _, _, _, _ => "(bad-op)"
   | _ => "(bad-op)"
 
